@@ -440,7 +440,7 @@ func (t *binary[V]) _match(n *binaryNode[V], prefix, pattern string, visit func(
 	}
 
 	if c := pattern[0]; c == '*' || c == n.char {
-		next := prefix + string(n.char)
+		next := prefix + string([]byte{n.char})
 		if n.term && len(pattern) == 1 {
 			visit(next, n)
 		}
@@ -467,7 +467,7 @@ func (t *binary[V]) _withPrefix(n *binaryNode[V], prefix, key string, visit func
 		return
 	}
 
-	next := prefix + string(n.char)
+	next := prefix + string([]byte{n.char})
 
 	if len(key) == 0 {
 		if n.term {
@@ -505,7 +505,7 @@ func (t *binary[V]) _allPrefixOf(n *binaryNode[V], prefix, key string, visit fun
 	}
 
 	if key[0] == n.char {
-		next := prefix + string(n.char)
+		next := prefix + string([]byte{n.char})
 		if n.term {
 			visit(next, n)
 		}
@@ -643,7 +643,7 @@ func (t *binary[V]) Traverse(order TraverseOrder, visit VisitFunc2[string, V]) {
 		if n == t.root {
 			return visit("", n.val)
 		}
-		return visit(string(n.char), n.val)
+		return visit(string([]byte{n.char}), n.val)
 	})
 }
 
@@ -654,7 +654,7 @@ func (t *binary[V]) _traverse(n *binaryNode[V], prefix string, order TraverseOrd
 		return true
 	}
 
-	next := prefix + string(n.char)
+	next := prefix + string([]byte{n.char})
 
 	switch order {
 	case VLR, Ascending:
